@@ -49,15 +49,22 @@ theorem cas_monotone (s : Srv) (r : Request) (h : String) (b : List Nat) (hg : c
   · exact hg
   · unfold handleCasPost; split
     · exact hg
-    · exact casGet_casPut_other _ _ _ _ _ hg
+    · unfold handleCasPostRead; split
+      · exact hg
+      · exact casGet_casPut_other _ _ _ _ _ hg
   · unfold handleImport; split
     · exact hg
-    · split <;> exact hg
+    · unfold handleImportRead; split
+      · exact hg
+      · split <;> exact hg
   · unfold handleAppend
-    simp only
     split
-    · exact hput _ _ _
-    · split <;> exact hput _ _ _
+    · exact hg
+    · unfold handleAppendRead
+      simp only
+      split
+      · exact hput _ _ _
+      · split <;> exact hput _ _ _
 
 /-- C13: a request answered with a client error leaves the stream exactly as it was -/
 theorem client_error_no_effect (s : Srv) (r : Request) (he : 400 ≤ (handle s r).2.status) :
@@ -81,10 +88,17 @@ theorem client_error_no_effect (s : Srv) (r : Request) (he : 400 ≤ (handle s r
   | itemRemove id => rw [hm] at he; simp [Resp.status] at he
   | headGet topic follow ctx => simp only; unfold handleHead; split <;> rfl
   | casGet h => rfl
-  | casPost => simp only; unfold handleCasPost; split <;> rfl
+  | casPost =>
+    simp only; unfold handleCasPost; split
+    · rfl
+    · unfold handleCasPostRead; split <;> rfl
   | importR =>
     rw [hm] at he; simp only at he ⊢
     unfold handleImport at he ⊢
+    by_cases hbb : r.bodyBroken = true
+    · simp [hbb]
+    simp only [hbb, Bool.false_eq_true, if_false] at he ⊢
+    unfold handleImportRead at he ⊢
     cases hb : r.importBody with
     | badJson => rfl
     | frame f =>
@@ -95,6 +109,10 @@ theorem client_error_no_effect (s : Srv) (r : Request) (he : 400 ≤ (handle s r
   | streamAppend topic ttl ctx =>
     rw [hm] at he; simp only at he ⊢
     unfold handleAppend at he ⊢
+    by_cases hbb : r.bodyBroken = true
+    · simp [hbb]
+    simp only [hbb, Bool.false_eq_true, if_false] at he ⊢
+    unfold handleAppendRead at he ⊢
     simp only at he ⊢
     split
     · rfl
@@ -116,6 +134,10 @@ theorem append_hash (s : Srv) (r : Request) (topic : List Nat) (ttl : TTL) (ctx 
     (r.body.isEmpty = false → f.hash = some r.bodyHash ∧
       casGet (handleAppend s r topic ttl ctx).1.cas r.bodyHash = some r.body) := by
   unfold handleAppend at hr ⊢
+  by_cases hbb : r.bodyBroken = true
+  · simp [hbb] at hr
+  simp only [hbb, Bool.false_eq_true, if_false] at hr ⊢
+  unfold handleAppendRead at hr ⊢
   simp only at hr ⊢
   split at hr
   · cases hr
